@@ -1096,7 +1096,15 @@ func (in *Interp) typeAssert(fr *Frame, x *ssa.TypeAssert) Value {
 	if iv.T != nil {
 		if it, isIface := at.Underlying().(*types.Interface); isIface {
 			if strings.HasPrefix(iv.T.String(), "opaque:") {
-				okk = it.NumMethods() == 0 || (it.NumMethods() == 1 && it.Method(0).Name() == "Error")
+				// an opaque value is an error; the engine's own runtime panics (opaque:runtime.Error)
+				// also satisfy runtime.Error (Error + RuntimeError), as the real ones do
+				okk = true
+				for i := 0; i < it.NumMethods(); i++ {
+					name := it.Method(i).Name()
+					if name != "Error" && !(name == "RuntimeError" && iv.T.String() == "opaque:runtime.Error") {
+						okk = false
+					}
+				}
 			} else {
 				okk = types.Implements(iv.T, it)
 			}
